@@ -542,6 +542,10 @@ func (db *DB) loadIndexFromDataFiles(fileIds []uint32, nonMergeFileId uint32) er
 			dataFile = db.olderFiles[fileId]
 		}
 		reader := dataFile.NewReader()
+		// 仅活跃文件 (id 最大的文件) 可能存在崩溃时未写完的尾部
+		if fileId == db.activeFile.ID {
+			reader.TolerateTornTail()
+		}
 		for {
 			logRecord, pos, err := reader.NextLogRecord()
 			if err != nil {
